@@ -53,7 +53,18 @@ port and in-memory clients that survive a restart in the race workload; clients 
 turns and connections that have received an error reply before the contended command;
 Stop between the handler operations of a composed command; unusual SELECT indexes;
 credentials split between AUTH's two arguments; key spaces above 1024 keys; requests that
-carry no command in traced pipelines.
+carry no command in traced pipelines. From the fourth round: second and later uses of one
+object (a value serialized twice, a server object in its second run, a pattern reused after
+many others); transports at the edge of their contract (bytes delivered together with
+io.EOF, a Close that reports an error, connections idle for longer than any time-out a
+feature might arm); the TLS flavour of every gate (C08, C13 on TLS connections);
+configuration changed while the server runs (ports, CA) before Stop/Restart, and lifecycle
+calls that fail; requests and replies beyond the sizes of internal buffers *inside*
+pipelines (1100 elements, replies of several KiB followed by QUIT, an unserializable
+element behind 8 KiB); commands the harness has no grammar for, taken from the server's own
+registry; no-command requests in the race workload; keys made of wildcard characters at
+server level; integers in non-canonical spellings; connections ended by the server while a
+tracer is installed.
 
 Seventeen **behaviour-preserving** changes (refactorings, micro-optimisations,
 data-structure swaps, renames and re-worded error texts in redis/proto, the server core,
